@@ -39,6 +39,15 @@ class C16(Machine):
             sc["params"]["kinds"] = prng.choice([["reclaim"], ["pickle"], ["reclaim", "pickle"], ["evict"]])
             sc["net"] = gen_network(sub_rng(run_seed, "net-skip-raw"), {"maa_cascade": 3, "maa": 1, "modular": 1}, nmax=self.NMAX.get(tier, 6), fmts=self.FMTS, shuffle_order=True)
             return sc
+        if prng.random() < 0.12:
+            # stub-data history: attractor data computed on unexpanded nodes, the fault, then a
+            # call that gives those nodes successors (every strategy / skip / SCC attachment) and
+            # the attractor queries again: whatever the strategy does with data cached on a stub
+            # must not depend on how much of that data the fault has dropped
+            sc["params"]["mode"] = "stub_data"
+            sc["params"]["kinds"] = prng.choice([["reclaim"], ["reclaim"], ["pickle"], ["evict"], ["reclaim", "pickle"]])
+            sc["net"] = gen_network(sub_rng(run_seed, "net-stub-data"), {"maa": 4, "maa_cascade": 3, "modular": 2, "rings": 1, "inputs_mix": 1}, nmax=self.NMAX.get(tier, 6), fmts=self.FMTS, shuffle_order=True)
+            return sc
         if prng.random() < 0.15:
             # cached-net history: percolated Petri nets are caches that later calls read
             # (expansion, skipping, candidate search).  Fill them through the public method,
@@ -92,6 +101,8 @@ class C16(Machine):
         script = None
         if not replay and p.get("mode") == "skip_raw":
             script = self.skip_raw_script(B, sc, rng, frng)
+        if not replay and p.get("mode") == "stub_data":
+            script = self.stub_data_script(B, sc, rng, frng)
         if not replay and p.get("mode") == "cached_net":
             script = self.cached_net_script(B, sc, rng, frng)
         while step < STEP_CAP and not vio:
@@ -185,6 +196,46 @@ class C16(Machine):
         rng.shuffle(ids)
         for i in ids[:12]:
             ops.append({"op": "seeds", "node": w.space_of(i), "compute": True, "fallback": False})
+        return ops[: STEP_CAP - 1]
+
+    def stub_data_script(self, B, sc, rng, frng):
+        w = self.make_world(sc)
+        if w.log[0]["out"]["cls"] != "ok":
+            return []
+        ops = []
+        if rng.random() < 0.4:
+            ops.append({"op": "expand_one", "node": w.space_of(0)})
+            w.apply(ops[-1])
+        stubs = w.stubs()
+        rng.shuffle(stubs)
+        for n in stubs[:3]:
+            sp = w.space_of(n)
+            kind = rng.choice(["seeds", "seeds", "sets", "candidates"])
+            op = {"op": "candidates", "node": sp, "compute": True, "greedy": True, "sim": True} if kind == "candidates" else ({"op": "sets", "node": sp, "compute": True} if kind == "sets" else {"op": "seeds", "node": sp, "compute": True, "fallback": False})
+            w.apply(op)
+            ops.append(op)
+        ops.append(self.fault_op(w, frng, sc["params"]["kinds"]))
+        stubs = w.stubs()
+        r = rng.random()
+        if r < 0.35:
+            op = {"op": "scc", "maa": rng.random() < 0.7}
+        elif r < 0.5:
+            op = {"op": "block", "maa": rng.random() < 0.7, "size": None, "opt_src": True, "exact": False}
+        elif r < 0.6:
+            op = {"op": "build"}
+        elif r < 0.7 and stubs:
+            op = {"op": "skip_to_minimal", "node": w.space_of(rng.choice(stubs))}
+        elif r < 0.8:
+            op = {"op": "skip_remaining"}
+        elif r < 0.9:
+            op = {"op": "minimal", "node": None, "size": None, "skip": rng.random() < 0.5}
+        else:
+            op = {"op": "bfs", "node": None, "level": None, "size": None}
+        w.apply(op)
+        ops.append(op)
+        ops.append({"op": "summary"})
+        ops.append({"op": "exp_seeds"})
+        ops.append({"op": "exp_sets"})
         return ops[: STEP_CAP - 1]
 
     def cached_net_script(self, B, sc, rng, frng):
